@@ -77,8 +77,10 @@ Eval(e, en) ==
          MkVal(t, poly)
     [] nd.k = "un" ->
          LET a == Eval(nd.r, en)
-             t == [i \in Pts |-> IF a.t[i] = Err THEN Err ELSE Un(nd.op, a.t[i], P)] IN
-         MkVal(t, IF nd.op = "prefix_sub" THEN a.poly ELSE IsConstT(a.t))
+             t == [i \in Pts |-> IF a.t[i] = Err THEN Err
+                                  ELSE IF nd.op = "sq" THEN Bin("mul", a.t[i], a.t[i], P)      \* a call of sq(x) = x * x
+                                  ELSE Un(nd.op, a.t[i], P)] IN
+         MkVal(t, IF nd.op \in {"prefix_sub", "sq"} THEN a.poly ELSE IsConstT(a.t))
     [] nd.k = "tern" ->
          LET c == Eval(nd.c, en)
              a == Eval(nd.l, en)
